@@ -30,6 +30,8 @@ func main() {
 	switch *prop {
 	case "C03":
 		genChain(r, "cs")
+		// the same rule where the library applies it to the chain a signer returns, at the signing time of the request
+		genSign(r, "C03")
 	case "C14":
 		genChain(r, "ts")
 		// the same rule where the library applies it to a chain nobody handed to the validator directly: the timestamping step of Sign
